@@ -49,6 +49,7 @@ class Dir:
         self.digest = {c: hashlib.md5(b).hexdigest() for c, b in self.contents.items()}
         self.rev_digest = {v: k for k, v in self.digest.items()}
         self.jobs = jobs
+        self.linked = set()
         self.tick_ns = 1_700_000_000_000_000_000
         self.state = None
         self.last_obj = None
@@ -61,10 +62,20 @@ class Dir:
     def edit(self, p, c):
         fp = self.path(p)
         if c == "-":
-            if os.path.exists(fp):
+            if os.path.lexists(fp):
                 os.unlink(fp)
             return
         os.makedirs(os.path.dirname(fp), exist_ok=True)
+        if p in self.linked:
+            # the entry is a symbolic link to a file kept elsewhere (a data set assembled from links): the edit rewrites
+            # the file behind the link, the link itself stays as it is
+            tgt = os.path.join(self.root, "elsewhere", p.replace("/", "_"))
+            os.makedirs(os.path.dirname(tgt), exist_ok=True)
+            if not os.path.islink(fp):
+                if os.path.lexists(fp):
+                    os.unlink(fp)
+                os.symlink(tgt, fp)
+                os.utime(fp, ns=(1_600_000_000_000_000_000, 1_600_000_000_000_000_000), follow_symlinks=False)
         with open(fp, "wb") as fh:
             fh.write(self.contents[c])
         # edits are a quarter of a second apart (several inside one second), in place (same inode)
@@ -121,6 +132,7 @@ def run_trace(case, seed):
     root = tlc.scratch_dir("c03-")
     rng = random.Random(seed * 7919 + case["id"])
     d = Dir(root, seed, case["jobs"])
+    d.linked = set(case.get("linked", []))
     try:
         order = [p for p in case["init"] if case["init"][p] != "-"]
         rng.shuffle(order)  # creation order decides the walk order
@@ -208,7 +220,8 @@ def sim_cases(num, depth, seed):
             a = to_json(st["act"])
             ops.append(a)
         if any(o["op"] == "Build" for o in ops):
-            cases.append({"id": i, "init": init, "ops": ops, "jobs": [None, 1, 4][i % 3]})
+            # every other behaviour runs on a directory one of whose entries (".e") is a symbolic link to a file elsewhere
+            cases.append({"id": i, "init": init, "ops": ops, "jobs": [None, 1, 4][i % 3], "linked": ["e"] if i % 2 else []})
     return cases
 
 
@@ -224,6 +237,7 @@ def directed_cases():
         if i % 2:
             ops = [{"op": "BuildOther"}] + ops[:3] + [{"op": "BuildOther"}] + ops[3:]
         cases.append({"id": 10_000 + i, "init": init, "ops": ops, "jobs": [None, 1, 4][i % 3]})
+        cases.append({"id": 10_100 + i, "init": init, "ops": ops, "jobs": [None, 1, 4][i % 3], "linked": ["e", "s/c"]})
     return cases
 
 
